@@ -558,6 +558,17 @@ def gen_refiter(rng, cfg, n_ops):
             lines.append("swapranges v0 v1 %d" % rng.randint(0, min(sizes[0], sizes[1])))
         else:
             lines.append("iter v%d" % a)
+    # iterator objects that outlive a change of the vector's layout: v0 is assigned a vector with other fixed sizes that
+    # fits into v0's block (the block stays, stride and field sizes change), is reserved, swapped - and after each step the
+    # held iterators are assigned from the current ones and dereferenced
+    fixed2 = [max(1, f - 1) if f > 1 else f + 1 for f in fixed]
+    _, pay2, same2 = gen_elem(rng, cfg, fixed2, 1, 10 ** 9)
+    lines.append("iter v0")
+    lines.append("new v2 2 %d %s 1" % (2 * pay2, fixed_text(fixed2)))
+    for _ in range(2):
+        lines.append("emplace v2 %s" % gen_elem(rng, cfg, fixed2, 1, 10 ** 9, same2)[0])
+    lines += ["copyassign v2 v0", "iter v0", "reserve v0 6 %d" % (6 * max(pay2, 1) + 64), "iter v0", "swap v0 v1", "iter v0", "iter v1",
+              "moveassign v1 v2", "iter v2"]
     lines.append("end")
     return lines
 
